@@ -32,20 +32,26 @@ def fmt(v, as_int=False):
     return repr(float(v))
 
 
-def write_csv(path, rows, order, with_adj=True, int_opens=False):
-    """rows: list of dict(date, open, close, adj). order: permutation of row indexes."""
+def write_csv(path, rows, order, with_adj=True, int_opens=False, cols=None, date_style='iso', int_closes=False):
+    """rows: list of dict(date, open, close, adj). order: permutation of row indexes. cols: order of the columns after
+    Date (vendors differ); date_style 'mdy' writes 2/1/2019 instead of 2019-02-01."""
+    names = ['Open', 'High', 'Low', 'Close'] + (['Adj Close'] if with_adj else []) + ['Volume']
+    if cols:
+        names = [c for c in cols if c in names] + [c for c in names if c not in cols]
     with open(path, 'w') as f:
-        f.write(HEADER if with_adj else HEADER.replace(',Adj Close', ''))
+        f.write(','.join(['Date'] + names))
         f.write('\n')
         for i in order:
             r = rows[i]
             hi = max([x for x in (r['open'], r['close']) if x is not None] or [1.0]) + 1.0
             lo = max(0.001, min([x for x in (r['open'], r['close']) if x is not None] or [1.0]) - 0.5)
-            cells = [r['date'], fmt(r['open'], int_opens), fmt(hi), fmt(lo), fmt(r['close'])]
-            if with_adj:
-                cells.append(fmt(r['adj']))
-            cells.append(str(r.get('volume', 1000 + i)))
-            f.write(','.join(cells) + '\n')
+            cell = {'Open': fmt(r['open'], int_opens), 'High': fmt(hi), 'Low': fmt(lo), 'Close': fmt(r['close'], int_closes),
+                    'Adj Close': fmt(r['adj'], int_closes), 'Volume': str(r.get('volume', 1000 + i))}
+            d_ = r['date']
+            if date_style == 'mdy':
+                y_, m_, dd_ = d_.split('-')
+                d_ = '%d/%d/%s' % (int(m_), int(dd_), y_)
+            f.write(','.join([d_] + [cell[c] for c in names]) + '\n')
 
 
 def gen_rows(rng, used, n=None, start=None):
@@ -177,15 +183,25 @@ class Dataset(object):
             twin_calendar = nsym >= 2 and rng.random() < 0.3
             int_opens = rng.random() < 0.2
             dotted = rng.random() < 0.3
+            lower = (not dotted) and rng.random() < 0.2
+            cols = None
+            if rng.random() < 0.3:
+                cols = ['Open', 'High', 'Low', 'Close', 'Adj Close', 'Volume']
+                rng.shuffle(cols)                             # e.g. Date,Close,Volume,Open,High,Low
+            spec['cols'] = cols
+            spec['date_style'] = 'mdy' if rng.random() < 0.15 else 'iso'
+            spec['int_closes'] = (not int_opens) and rng.random() < 0.15
             for s in range(nsym):
                 sym = 'S%d' % s
                 if dotted and s == nsym - 1:
                     sym = 'S0.L' if nsym > 1 else 'BRK.B'      # exchange-suffixed / share-class tickers
+                if lower:
+                    sym = ['tip', 'tips', 'gs'][s]            # lower-case file names, also ending in c / s / v
                 start = base + dt.timedelta(days=rng.choice([0, 0, 3, 17, 90]))
                 rows = gen_rows(rng, used, start=start)
                 if twin_calendar and s > 0:
                     # same first date, last date and row count as S0, but other days in between
-                    ref = spec['files']['S0']['rows']
+                    ref = list(spec['files'].values())[0]['rows']
                     if len(ref) >= 3:
                         d0, d1 = dt.date.fromisoformat(ref[0]['date']), dt.date.fromisoformat(ref[-1]['date'])
                         inner = [d0 + dt.timedelta(days=k) for k in range(1, (d1 - d0).days)]
@@ -198,16 +214,23 @@ class Dataset(object):
                     for r in rows:
                         if r['open'] is not None:
                             r['open'] = float(int(r['open']) + 1)      # whole-number opens (written without '.0')
+                if spec['int_closes']:
+                    for r in rows:                                      # whole-number closes, fractional opens
+                        if r['close'] is not None:
+                            r['close'] = float(int(r['close']) + 1)
+                            if r['adj'] is not None:
+                                r['adj'] = r['close'] if not spec['adjust'] else float(int(r['adj']) + 1)
                 order = list(range(len(rows)))
                 if rng.random() < 0.7:
                     rng.shuffle(order)
                 spec['files'][sym] = {'rows': rows, 'order': order, 'int_opens': int_opens}
         self.spec = spec
         self.adjust = spec['adjust']
+        style = dict(cols=spec.get('cols'), date_style=spec.get('date_style', 'iso'), int_closes=spec.get('int_closes', False))
         for sym, f in spec['files'].items():
-            write_csv(os.path.join(self.dir, sym + '.csv'), f['rows'], f['order'], int_opens=f.get('int_opens', False))
+            write_csv(os.path.join(self.dir, sym + '.csv'), f['rows'], f['order'], int_opens=f.get('int_opens', False), **style)
             rev = list(reversed(sorted(range(len(f['rows'])), key=lambda i: f['rows'][i]['date'])))
-            write_csv(os.path.join(self.dir2, sym + '.csv'), f['rows'], rev, int_opens=f.get('int_opens', False))
+            write_csv(os.path.join(self.dir2, sym + '.csv'), f['rows'], rev, int_opens=f.get('int_opens', False), **style)
         self.ev = {'EQ:' + sym: events(f['rows'], self.adjust) for sym, f in spec['files'].items()}
 
     def close(self):
@@ -344,6 +367,15 @@ def run_dataset(ds, acc, rng, n_extra=0):
     check_historical_closes(ds, src, acc, rng)
     src2 = CSVDailyBarDataSource(ds.dir2, None, adjust_prices=ds.adjust)
     handler = BacktestDataHandler(None, data_sources=[src])
+
+    class Quoted(object):
+        """A user's data source with a bid/ask spread around the CSV source's price (the handler only needs get_bid/get_ask)."""
+        def get_bid(self, dt_, asset_):
+            return src.get_bid(dt_, asset_)
+
+        def get_ask(self, dt_, asset_):
+            return src.get_bid(dt_, asset_) * 1.25 + 0.5
+    spread_handler = BacktestDataHandler(None, data_sources=[Quoted()])
     acc.count('C06:datasets')
     for asset, ev in ds.ev.items():
         for t in instants(rng, ev):
@@ -370,6 +402,12 @@ def run_dataset(ds, acc, rng, n_extra=0):
             check_answer(ds, asset, t, hba[1], 'handler.bid_ask[1]', acc)
             check_answer(ds, asset, t, hm, 'handler.mid', acc)
             acc.count('C06:handler_checks')
+            # a source whose ask differs from its bid: the handler's ask is that source's ask, its bid that source's bid
+            sb, sa = spread_handler.get_asset_latest_bid_price(ts, asset), spread_handler.get_asset_latest_ask_price(ts, asset)
+            check_answer(ds, asset, t, sb, 'handler[spread source].bid', acc)
+            if not (isnan(sb) and isnan(sa)) and not core.close(sa, F(sb) * F(1.25) + F(0.5), abs(sb) + 1, rel=1e-12):
+                raise Violation('C06', 'handler-ask-is-not-the-source-ask', 'a data source quotes %s at %s bid %r / ask %r; the handler '
+                                'returns ask %r' % (asset, t, sb, sb * 1.25 + 0.5, sa), {'asset': asset, 't': str(t)})
             # pandas timestamps carry nanoseconds: one nanosecond after t answers like t, one before like t - 1us
             if acc.counters['C06:handler_checks'] % 4 == 1:
                 after_ns = ts + pd.Timedelta(nanoseconds=1)
